@@ -12,7 +12,8 @@ from harness.core import gq, gz, gnat, gbool, glist, gstr
 
 HEADER = """From Coq Require Import ZArith List Bool String.
 From FrameModel Require Import Num.QcTac PB.Expr PB.Cnf PB.Amo PB.Robdd PB.Codify PB.Sat
-  RectSearch.Coords RectSearch.Names RectSearch.Encode RectSearch.Shapes RectSearch.SelectBox Cases.CmpC08.
+  RectSearch.Coords RectSearch.Names RectSearch.Encode RectSearch.Shapes RectSearch.SelectBox RectSearch.Spelling
+  Cases.CmpC08.
 Import ListNotations.
 Local Open Scope nat_scope."""
 
@@ -54,6 +55,27 @@ ASSUMPTIONS = [
     "select_box's snapping tolerance is 1e-9 x the largest coordinate magnitude (binary64 product in the code, exact "
     "rational in the model): generated grid lines are at least 1/100 apart with magnitudes below 2^10, so no "
     "comparison is near the threshold",
+    "number spellings (every third case): the cells handed to definecoords / solve are tuples of Python numbers chosen "
+    "per cell and per coordinate among int, float, numpy.float64, numpy.int64 (integer values) and the float -0.0 "
+    "(value 0) - one grid line is then the int 1 for some cells and the float 1.0 for others, str() differs, the value "
+    "does not; patterns: by side of the line (cells below / left vs above / right), one single deviating number, all "
+    "ints with one float, one line only, independently at random; occupancies as int / float / numpy too.  In the "
+    "allocation path the text of the file writes a number as 3 / 3.0 / 3.00 / 30.0e-1 / 0.03e2 / 3.0e+0 (every form is "
+    "read back by the YAML reader as the same binary64 or int) and the parsed input file handed to select_box "
+    "carries int / float / numpy scalars / -0.0; select_box's result is handed to the search as the very objects it "
+    "returned (as rect's main does).  The model reads a written number by its value (RectSearch/Spelling.v "
+    "read_problem / read_arect; C08_spelling_irrelevant); bool, Fraction, Decimal and numpy.float32 are not generated "
+    "(InputBox = tuple[float, ...]: int and float subclasses are what a caller or the YAML reader produces)",
+    "grid lines one unit in the last place apart (one case in 20 with dyadic numbers, one in 40 with decimal ones: "
+    "x and nextafter(x), e.g. 0.3 and 0.1 + 0.2) are DIFFERENT lines - on the direct path only (select_box snaps lines "
+    "closer than 1e-9 x the largest magnitude, by its repair); one case in 40 has plain decimal coordinates on the "
+    "direct path.  Such a case is compared with the model only when areas_robust holds - every int(factor * p * w * h) "
+    "that rect.area forms in binary64, in any order of the multiplications, provably equals the integer part of the "
+    "exact product (all partial products exact, or the exact product further than 1e-12 relative from an integer) - "
+    "otherwise it is 'inexact': bound trivially met, direct oracle only (shape set by all-models enumeration, returned "
+    "rectangles = boxes)",
+    "two implementation names that map to one model variable ('b0_x_1' and 'b0_x_1.0') are kept apart as a foreign "
+    "variable: the model comparison then fails (not expressible) and the all-models enumeration / the oracle decide",
     "PySAT is trusted as sound and complete (Section variable sat_o in the theorems)",
     "the process-wide diagram store is reset to [0, 1] before a case and then filled by the case's own earlier "
     "solve (history); the store found at the start of the observed solve is the model's initial store",
@@ -152,6 +174,157 @@ def grid_cells(xs, ys, order):
     return [cells[i] for i in order]
 
 
+# --------------------------------------------------------------------------
+# number spellings: one VALUE written as different Python numbers in different cells of the same grid
+# --------------------------------------------------------------------------
+# tags: f float, i int, n numpy.float64, I numpy.int64 (integer values only), z the float -0.0 (value 0 only)
+def spelled(q, tag):
+    q = Fraction(q)
+    if tag in ("i", "I", "z"):
+        assert q.denominator == 1 and (tag != "z" or q == 0), (q, tag)
+    if tag == "i":
+        return int(q)
+    if tag == "I":
+        import numpy
+        return numpy.int64(int(q))
+    if tag == "n":
+        import numpy
+        return numpy.float64(float(q))
+    if tag == "z":
+        return -0.0
+    return float(q)
+
+
+def plain(v):
+    """A number of any spelling as a plain int / float of the same value (for the records and the printers)."""
+    import numbers
+    return int(v) if isinstance(v, numbers.Integral) else float(v)
+
+
+def tags_for(q, occ=False):
+    t = ["f", "f", "n"]
+    if Fraction(q).denominator == 1:
+        t += ["i", "i", "I"]
+        if q == 0 and not occ:
+            t += ["z", "z"]
+    return t
+
+
+def gen_spell(rng, cells, occ):
+    """Per cell a 5-letter word: how x1, y1, x2, y2 and the occupancy are written.  Patterns: every number an int where
+    it can be (the way a hand-written grid looks); a grid line written one way by the cells below / left of it and
+    another way by the cells above / right of it; one single deviating number; independently at random."""
+    mode = rng.choice(["sided", "sided", "random", "random", "one", "ints", "line"])
+    words = []
+    if mode in ("sided", "line"):
+        # a tag per (axis, value, role of the line in the cell: lower or upper border)
+        tab = {}
+        odd = None
+        if mode == "line":      # only one line of the grid is written in two ways
+            vals = sorted({(a, c[a]) for c in cells for a in (0, 1)} | {(a, c[a + 2]) for c in cells for a in (0, 1)})
+            ints = [v for v in vals if v[1].denominator == 1]
+            odd = rng.choice(ints or vals)
+        for c, p in zip(cells, occ):
+            w = ""
+            for j in range(4):
+                key = (j % 2, c[j], j // 2)
+                if key not in tab:
+                    if odd is not None and (j % 2, c[j]) != odd:
+                        tab[key] = "f"
+                    elif odd is not None:
+                        ts = [t for t in tags_for(c[j]) if t != "f"]
+                        tab[key] = "f" if j // 2 == 0 else rng.choice(ts)
+                    else:
+                        tab[key] = rng.choice(tags_for(c[j]))
+                w += tab[key]
+            words.append(w + rng.choice(tags_for(p, True)))
+    elif mode == "ints":
+        for c, p in zip(cells, occ):
+            words.append("".join("i" if Fraction(v).denominator == 1 else "f" for v in c) +
+                         ("i" if p.denominator == 1 and rng.random() < 0.5 else "f"))
+        if rng.random() < 0.7:      # ... and one of them a float after all (or the float zero with a sign)
+            b, j = rng.randrange(len(cells)), rng.randrange(4)
+            t = rng.choice([t for t in tags_for(cells[b][j]) if t != "i"])
+            words[b] = words[b][:j] + t + words[b][j + 1:]
+    elif mode == "one":
+        words = ["fffff" for _ in cells]
+        b, j = rng.randrange(len(cells)), rng.randrange(4)
+        cand = [(b2, j2) for b2, c in enumerate(cells) for j2 in range(4) if Fraction(c[j2]).denominator == 1]
+        if cand:
+            b, j = rng.choice(cand)
+        t = rng.choice([t for t in tags_for(cells[b][j]) if t != "f"])
+        words[b] = words[b][:j] + t + words[b][j + 1:]
+    else:
+        for c, p in zip(cells, occ):
+            words.append("".join(rng.choice(tags_for(v)) for v in c) + rng.choice(tags_for(p, True)))
+    return words
+
+
+def spelled_cells(case):
+    """The input problem as the case spells it: tuples (x1, y1, x2, y2, p) of Python numbers."""
+    words = case.get("spell") or ["fffff"] * len(case["cells"])
+    return [tuple(spelled(v, t) for v, t in zip(list(c) + [p], w)) for c, p, w in zip(case["cells"], case["occ"], words)]
+
+
+def mixed_lines(case):
+    """Number of grid lines that occur under two different str() in the input problem."""
+    seen = {}
+    for t in spelled_cells(case):
+        for j in range(4):
+            seen.setdefault((j % 2, Fraction(plain(t[j]))), set()).add(str(t[j]))
+    return sum(1 for v in seen.values() if len(v) > 1)
+
+
+def add_near_line(rng, xs):
+    """One more grid line next to an existing one at the distance of ONE unit in the last place (0.1 + 0.2 next to
+    0.3): equal after any rounding to fewer digits, yet a different number - the cells between them are a column of
+    the grid like any other."""
+    import math
+    cand = [i for i, x in enumerate(xs) if x != 0]
+    i = rng.choice(cand)
+    x = float(xs[i])
+    assert Fraction(x) == xs[i]
+    up = rng.random() < 0.5
+    y = Fraction(math.nextafter(x, math.inf if up else -math.inf))
+    return sorted(set(xs) | {y})
+
+
+def _bits(q):
+    """Significant bits of a dyadic rational (None if it is not one)."""
+    q = Fraction(q)
+    d = q.denominator
+    if d & (d - 1):
+        return None
+    n = abs(q.numerator)
+    while n and n % 2 == 0:
+        n //= 2
+    return n.bit_length()
+
+
+def areas_robust(case):
+    """True iff the integer areas rect.area forms in binary64 - int(factor * p * (x2 - x1) * (y2 - y1)), the
+    multiplications in ANY order - are the integer parts of the exact products on this case: either every partial
+    product is exact (dyadic factors of at most 53 significant bits together, the differences representable) or the
+    exact product is further from an integer boundary than any accumulation of rounding errors (1e-12 relative)."""
+    f = Fraction(case["factor"])
+    delta = Fraction(1, 10 ** 12)
+    for (x1, y1, x2, y2), p in zip(case["cells"], case["occ"]):
+        w, h = x2 - x1, y2 - y1
+        wf, hf = Fraction(float(x2) - float(x1)), Fraction(float(y2) - float(y1))
+        for fs, ff in (([f, p, w, h], [f, p, wf, hf]), ([f, w, h], [f, wf, hf])):
+            bs = [_bits(v) for v in fs]
+            if wf == w and hf == h and None not in bs and sum(bs) <= 53:
+                continue
+            exact, got = Fraction(1), Fraction(1)
+            for v in fs:
+                exact *= v
+            for v in ff:
+                got *= v
+            if not (int(exact) == int(got * (1 - delta)) == int(got * (1 + delta))):
+                return False
+    return True
+
+
 def coefs(case):
     """(sel, real) integer areas per cell exactly as rect.area forms them (exact arithmetic)."""
     out = []
@@ -181,15 +354,95 @@ def make_alloc(rng, case, decimal):
         case["bound"] = -10 ** 9
 
 
-def gen_case(rng, small=False, alloc=None, via="file", big=False):
+TEXT_FORMS = ["d", "d", "0", "e", "E", "x"]      # + "i" for integers
+
+
+def spell_alloc(rng, case):
+    """How the numbers of the allocation are written: in the text (file path) as 3 / 3.0 / 3.00 / 30e-1 / 0.3e1 /
+    3.0e+0, in the parsed input file (ifile path) as int / float / numpy scalars / -0.0 - per cell a word for the four
+    numbers of 'dim' and a word for the ratios."""
+    ifile = case["alloc"].get("via") == "ifile"
+    words = []
+    mode = rng.choice(["random", "random", "ints", "one"])
+    one = (rng.randrange(len(case["cells"])), rng.randrange(4))
+    for b, ((x1, y1, x2, y2), mods) in enumerate(zip(case["cells"], case["alloc"]["mods"])):
+        dim = [(x1 + x2) / 2, (y1 + y2) / 2, x2 - x1, y2 - y1]
+        if ifile:
+            dim = [Fraction(float(v)) for v in dim]
+        w = ""
+        for j, v in enumerate(dim):
+            if ifile:
+                ts = tags_for(v, occ=(j >= 2))
+            else:
+                ts = TEXT_FORMS + (["i", "i", "i"] if v.denominator == 1 else [])
+            if mode == "ints":
+                t = "i" if v.denominator == 1 else ("f" if ifile else "d")
+            elif mode == "one":
+                t = ("f" if ifile else "d") if (b, j) != one else rng.choice(ts)
+            else:
+                t = rng.choice(ts)
+            w += t
+        m = ""
+        for nm, r in mods:
+            r = Fraction(r)
+            m += rng.choice(tags_for(r, True) if ifile else TEXT_FORMS + (["i", "i"] if r.denominator == 1 else []))
+        words.append([w, m])
+    case["alloc"]["spell"] = words
+
+
+def text_number(q, form):
+    """A literal of exactly the value q (a finite decimal) in the given form; every form is read back by YAML as the
+    same number (the binary64 nearest to q; an int for form i)."""
+    q = Fraction(q)
+    if form == "i":
+        assert q.denominator == 1
+        return str(int(q))
+    d = dec(q)
+    if form == "0":
+        return d + ("0" if "." in d else ".00")
+    if form == "e":
+        return dec(q * 10) + ("" if "." in dec(q * 10) else ".0") + "e-1"
+    if form == "E":
+        return dec(q / 100) + "e2" if "." in dec(q / 100) else dec(q / 100) + ".0e2"
+    if form == "x":
+        return (d if "." in d else d + ".0") + "e+0"
+    return d if "." in d else d + ".0"
+
+
+def gen_case(rng, small=False, alloc=None, via="file", big=False, spell=False, near=None):
     """alloc: None (the grid is given to solve directly), False (through an allocation, dyadic numbers),
     True (through an allocation with decimal coordinates: direct oracle only).
     via: "file" (allocation text -> frame Allocation -> rect_io.get_alloc: positive quadrant only) or "ifile" (the
-    parsed input file, the dict get_alloc returns, handed to select_box directly: any origin)."""
+    parsed input file, the dict get_alloc returns, handed to select_box directly: any origin).
+    spell: equal numbers are written in different ways (int / float / numpy scalars / -0.0; in an allocation text
+    also 1.50, 15e-1, 0.15e1) in different cells.
+    near (direct path only): "dyadic" / "decimal" - one axis has two grid lines one unit in the last place apart;
+    "plain-decimal" - decimal coordinates without such a pair."""
     nx, ny = rng.choice(SIZES[:10] if small else SIZES)
     if big:
         nx, ny = rng.choice(BIG_SIZES)
-    if alloc and via == "ifile":
+    if near and alloc is None:
+        # at most 6 cells (and k <= 2 above 4): 53-bit numerators make every Qc operation of the model ~100 x dearer
+        nx, ny = rng.choice(SIZES[1:8] if near != "plain-decimal" else SIZES[:8])
+        ax = rng.randrange(2) if near != "plain-decimal" else None
+        dims = [nx, ny]
+        if ax is not None and dims[ax] >= 2:
+            dims[ax] -= 1                        # the thin column / row is one of the nx / ny
+        axes = []
+        for a in range(2):
+            if near == "dyadic":
+                v = gen_axis(rng, dims[a], rng.choice(STYLES))
+            else:
+                v = [Fraction(float(x)) for x in (gen_axis_decimal_any(rng, dims[a]) if rng.random() < 0.6 else
+                                                  gen_axis_decimal(rng, dims[a]))]
+            if a == ax:
+                v = add_near_line(rng, v)
+                if near == "dyadic" and rng.random() < 0.3 and len(v) * (dims[1 - a]) <= 6:
+                    v = add_near_line(rng, v)       # three lines in a row one unit apart, or two such pairs
+            axes.append(v)
+        xs, ys = axes
+        nx, ny = len(xs) - 1, len(ys) - 1
+    elif alloc and via == "ifile":
         xs, ys = gen_axis_decimal_any(rng, nx), gen_axis_decimal_any(rng, ny)
         if rng.random() < 0.5:          # one axis plain, so that the other one's position is what matters
             ys = gen_axis_decimal(rng, ny)
@@ -236,7 +489,8 @@ def gen_case(rng, small=False, alloc=None, via="file", big=False):
         occ = [rng.choice(OCC) for _ in cells]
     if alloc is not None:
         occ = [min(p, Fraction(1)) for p in occ]          # an Allocation keeps ratios in [0, 1]
-    case = {"kind": kind, "cells": cells, "occ": occ, "k": rng.choice([1, 2, 2] if big else [1, 2, 2, 3, 3]), "factor": factor,
+    case = {"kind": kind, "cells": cells, "occ": occ,
+            "k": rng.choice([1, 2, 2] if big or (near and len(cells) > 4) else [1, 2, 2, 3, 3]), "factor": factor,
             "ratio": rng.choice([Fraction(2)] * 8 + [Fraction(3)] * 4 + [Fraction(5, 2)] * 4 + [Fraction(3, 2)] * 3 +
                                 [Fraction(1)]), "bound": 0,
             "history": None}
@@ -252,9 +506,18 @@ def gen_case(rng, small=False, alloc=None, via="file", big=False):
         case["bound"] = maxpos + rng.choice([0, 1])    # at most the best conceivable / unsatisfiable
     else:
         case["bound"] = rng.randint(minneg - 1, 0)
+    if near and alloc is None:
+        case["near"] = near
+        if not areas_robust(case):      # binary64 area products may truncate differently from exact arithmetic:
+            case["inexact"] = True      # judged by the direct oracle alone, on the shape set (bound trivially met)
+            case["bound"] = -10 ** 9
+    if spell and alloc is None:
+        case["spell"] = gen_spell(rng, case["cells"], case["occ"])
     if alloc is not None:
         make_alloc(rng, case, alloc)
         case["alloc"]["via"] = via
+        if spell:
+            spell_alloc(rng, case)
     m = rng.random()
     if m < 0.1 and not big:
         # as rect's main does: the SAME carrier and input file are used for several solves (other k, other bound)
@@ -283,7 +546,14 @@ def dec(q):
 def alloc_text(case):
     """The allocation file of the case's grid: one rectangle [xc, yc, w, h] per cell with the ratios of its modules."""
     rows = []
-    for (x1, y1, x2, y2), mods in zip(case["cells"], case["alloc"]["mods"]):
+    words = case["alloc"].get("spell")
+    for b, ((x1, y1, x2, y2), mods) in enumerate(zip(case["cells"], case["alloc"]["mods"])):
+        if words:
+            dw, mw = words[b]
+            ms = ", ".join(f"{nm}: {text_number(r, t)}" for (nm, r), t in zip(mods, mw))
+            dim = ", ".join(text_number(v, t) for v, t in zip([(x1 + x2) / 2, (y1 + y2) / 2, x2 - x1, y2 - y1], dw))
+            rows.append(f"  [[{dim}], {{{ms}}}]")
+            continue
         ms = ", ".join(f"{nm}: {dec(Fraction(r))}" for nm, r in mods)
         rows.append(f"  [[{dec((x1 + x2) / 2)}, {dec((y1 + y2) / 2)}, {dec(x2 - x1)}, {dec(y2 - y1)}], {{{ms}}}]")
     return "[\n" + ",\n".join(rows) + "\n]\n"
@@ -300,14 +570,19 @@ def through_allocation(case):
         # the parsed input file as get_alloc builds it, written down directly: centre and size are the binary64 values
         # of the exact decimal numbers (what reading them from a file gives)
         rects = []
+        words = case["alloc"].get("spell")
         for i, ((x1, y1, x2, y2), mods) in enumerate(zip(case["cells"], case["alloc"]["mods"])):
             dim = [float((x1 + x2) / 2), float((y1 + y2) / 2), float(x2 - x1), float(y2 - y1)]
-            rects.append({f"b{i}": [{"dim": dim}, {"mod": [{nm: float(Fraction(r))} for nm, r in mods]}]})
+            ml = [{nm: float(Fraction(r))} for nm, r in mods]
+            if words:       # the same numbers as int / numpy scalars / -0.0
+                dim = [spelled(Fraction(v), t) for v, t in zip(dim, words[i][0])]
+                ml = [{nm: spelled(Fraction(float(Fraction(r))), t)} for (nm, r), t in zip(mods, words[i][1])]
+            rects.append({f"b{i}": [{"dim": dim}, {"mod": ml}]})
         xs = [c[0] for c in case["cells"]] + [c[2] for c in case["cells"]]
         ys = [c[1] for c in case["cells"]] + [c[3] for c in case["cells"]]
         ifile = {"Width": float(max(xs) - min(xs)), "Height": float(max(ys) - min(ys)), "Rectangles": rects}
         inp, _ = IO.select_box("M", ifile)
-        return ifile, [tuple(float(v) for v in c) for c in inp]
+        return ifile, list(inp)          # as rect's main does: select_box's result IS the input problem
     fd, path = tempfile.mkstemp(prefix="c08-alloc-", suffix=".yaml")      # get_alloc takes a file name
     try:
         with os.fdopen(fd, "w") as f:
@@ -317,12 +592,12 @@ def through_allocation(case):
         os.unlink(path)
     inp, _ = IO.select_box("M", ifile)
     Rectangle.undefine_epsilon()
-    return ifile, [tuple(float(v) for v in c) for c in inp]
+    return ifile, list(inp)
 
 
 def make_carrier(case):
     import tools.rect.rect as R
-    cells = [(float(c[0]), float(c[1]), float(c[2]), float(c[3]), float(p)) for c, p in zip(case["cells"], case["occ"])]
+    cells = spelled_cells(case)
     via = None
     if case.get("alloc"):
         via = through_allocation(case)
@@ -378,6 +653,7 @@ class NameMap:
         self.xi = {x: i for i, x in enumerate(car.xcoords)}
         self.yi = {y: i for i, y in enumerate(car.ycoords)}
         self.fwd, self.back = {}, {}
+        self.clashes = []
 
     def var(self, nm):
         if nm in self.fwd:
@@ -400,9 +676,18 @@ class NameMap:
             if not m:
                 raise ValueError(f"unexpected variable name {nm!r}")
             tab = self.xi if m.group(2) in "xX" else self.yi
-            v = (m.group(2), int(m.group(1)), tab[float(m.group(3))])
+            try:
+                v = (m.group(2), int(m.group(1)), tab[float(m.group(3))])
+            except (KeyError, ValueError):
+                # a name that carries no grid line of this problem ('b0_x_0.4' on a grid whose line is
+                # 0.4000000000000001): not a variable of the model; the enumeration and the oracle decide
+                self.clashes.append(f"name {nm!r} carries no coordinate of the grid")
+                v = ("?", nm)
         if v in self.back and self.back[v] != nm:
-            raise ValueError(f"names {nm!r} and {self.back[v]!r} map to the same model variable")
+            # two different names for what the model has as ONE variable (e.g. 'b0_x_1' and 'b0_x_1.0'): the formula is
+            # not the model's; kept as a variable of its own so that the all-models enumeration and the oracle decide
+            self.clashes.append(f"names {nm!r} and {self.back[v]!r} map to the same model variable")
+            v = ("?", nm)
         self.fwd[nm] = v
         self.back[v] = nm
         return v
@@ -427,16 +712,22 @@ def run_impl(case):
     mem0_raw = list(pb.memory[2:])
     car, sm, ret = call_solve(case, pre=pre)
     nmap = NameMap(car)
-    obs = {"xs": list(car.xcoords), "ys": list(car.ycoords),
-           "prevx": [[k, v] for k, v in car.prev_x.items()], "nextx": [[k, v] for k, v in car.next_x.items()],
-           "prevy": [[k, v] for k, v in car.prev_y.items()], "nexty": [[k, v] for k, v in car.next_y.items()],
+    obs = {"xs": [plain(x) for x in car.xcoords], "ys": [plain(y) for y in car.ycoords],
+           "prevx": [[plain(k), plain(v)] for k, v in car.prev_x.items()],
+           "nextx": [[plain(k), plain(v)] for k, v in car.next_x.items()],
+           "prevy": [[plain(k), plain(v)] for k, v in car.prev_y.items()],
+           "nexty": [[plain(k), plain(v)] for k, v in car.next_y.items()],
            "blocks": list(car.blocks), "keyerror": ret == "KeyError", "zerodiv": ret == "ZeroDivisionError",
            "tba": int(car.theoreticalBestArea)}
     if case.get("alloc"):
         ifile, selected = car.via
-        obs["selected"] = [list(c) for c in selected]
+        obs["selected"] = [[float(v) for v in c] for c in selected]
+        obs["selected_types"] = sorted({type(v).__name__ for c in selected for v in c[:4]})
         obs["ifile"] = [[[float(v) for v in b[nm][0]["dim"]], [[k, float(v)] for m in (b[nm][1]["mod"] or []) for k, v in m.items()]]
                         for b in ifile["Rectangles"] for nm in b]
+        obs["ifile_tags"] = [["".join(tag_of(v) for v in b[nm][0]["dim"]),
+                              "".join(tag_of(v) for m in (b[nm][1]["mod"] or []) for k, v in m.items())]
+                             for b in ifile["Rectangles"] for nm in b]
     # the store of the history: its decision variables are "b_<n>" names as well
     obs["mem0"] = mem_nodes(mem0_raw, nmap)
     if obs["keyerror"]:
@@ -444,13 +735,15 @@ def run_impl(case):
     obs["newmem"] = mem_nodes(list(pb.memory[2 + len(mem0_raw):]), nmap)
     obs["clauses"] = [[[nmap.var(l.v), bool(l.s)] for l in c] for c in sm.clauses]
     obs["vtable"] = [nmap.var(v) for v in sm.vtable[1:]]
+    if nmap.clashes:
+        obs["nameclash"] = nmap.clashes[:4]
     if obs["zerodiv"]:
         return obs
     (c1, c2), rects, quality = ret
     obs["quality"] = float(quality)
     obs["ret"] = [int(c1), int(c2)]
     obs["sat"] = len(rects) > 0 or (c1, c2) != (0, 1)
-    obs["rects"] = [None if r[0] == float("inf") else [r[0], r[1], r[2], r[3]] for r in rects]
+    obs["rects"] = [None if r[0] == float("inf") else [plain(r[0]), plain(r[1]), plain(r[2]), plain(r[3])] for r in rects]
     k, n = case["k"], len(case["cells"])
     if obs["sat"]:
         obs["true"] = sorted([nmap.var(v) for v, val in sm.model.items() if val == 1], key=str)
@@ -487,6 +780,8 @@ def gvar(v):
         return f"(vU {v[1]})"
     if t in ("N", "S", "E", "W"):
         return f"(v{t} {v[1]})"
+    if t == "?":
+        raise ValueError(f"variable {v[1]!r} is not a variable of the model (a second name of one, or no grid line)")
     return f"(v{t} {v[1]} {v[2]})"
 
 
@@ -498,7 +793,29 @@ def gcell(c, p):
     return f"(mkCell {gq(c[0])} {gq(c[1])} {gq(c[2])} {gq(c[3])} {gq(p)})"
 
 
+def gnum(q, tag):
+    """A written number for the model's reader (RectSearch/Spelling.v): int and numpy integers are NInt, float and
+    numpy.float64 NFloat of the exact value, -0.0 NNegZero."""
+    if tag in ("i", "I"):
+        return f"(NInt {gz(int(q))})"
+    if tag == "z":
+        return "NNegZero"
+    return f"(NFloat {gq(q)})"
+
+
+def tag_of(v):
+    """How a Python number met in the implementation's data is written (the inverse of [spelled])."""
+    import math
+    import numbers
+    if isinstance(v, numbers.Integral):
+        return "i"
+    return "z" if float(v) == 0 and math.copysign(1.0, float(v)) < 0 else "f"
+
+
 def gproblem(case):
+    if case.get("spell"):      # the problem as it was written, read by the model's read_problem
+        return "(read_problem " + glist(["(mkSCell " + " ".join(gnum(v, t) for v, t in zip(list(c) + [p], w)) + ")"
+                                         for c, p, w in zip(case["cells"], case["occ"], case["spell"])]) + ")"
     return glist([gcell(c, p) for c, p in zip(case["cells"], case["occ"])])
 
 
@@ -529,8 +846,13 @@ def effective(case, obs):
 
 
 def garects(obs):
-    return glist([f"(mkA {gq(d[0])} {gq(d[1])} {gq(d[2])} {gq(d[3])} "
-                  f"{glist(['(' + gstr(k) + ', ' + gq(v) + ')' for k, v in mods])})" for d, mods in obs["ifile"]])
+    """The parsed input file as select_box received it - every number as it is written there (int / float / -0.0) -
+    read by the model's read_arect."""
+    out = []
+    for (d, mods), (dt, mt) in zip(obs["ifile"], obs["ifile_tags"]):
+        ms = glist(["(" + gstr(k) + ", " + gnum(v, t) + ")" for (k, v), t in zip(mods, mt)])
+        out.append("(read_arect " + " ".join(gnum(v, t) for v, t in zip(d, dt)) + " " + ms + ")")
+    return glist(out)
 
 
 def to_coq(case, obs):
@@ -539,6 +861,8 @@ def to_coq(case, obs):
             return "true"      # decimal coordinates: binary64 rounding is not modelled - judged by the direct oracle only
         pre = f"c08_select_check {gstr('M')} {garects(obs)} {gproblem(effective(case, obs))}"
         return f"({pre}) && ({to_coq_solve(effective(case, obs), obs)})"
+    if case.get("inexact"):
+        return "true"          # the binary64 area products are not the exact ones here: direct oracle only
     return to_coq_solve(case, obs)
 
 
@@ -700,7 +1024,7 @@ def oracle(case, obs):
         if why:
             return why
         return oracle_solve(effective(case, obs), obs, decimal=case["alloc"]["decimal"])
-    return oracle_solve(case, obs)
+    return oracle_solve(case, obs, decimal=bool(case.get("inexact")))
 
 
 def oracle_solve(case, obs, decimal=False):
@@ -805,8 +1129,19 @@ def rebuild(case, xs, ys):
     cells = grid_cells(xs, ys, list(range(nx * ny)))
     p = Fraction(0) if all(q == 0 for q in case["occ"]) else Fraction(1)     # keep "the module is absent"
     c = dict(case, cells=cells, occ=[p] * len(cells), history=None)
+    if case.get("spell"):
+        # keep how each line was written by the cells it bounds from below / from above
+        tab = {}
+        for cell, w in zip(case["cells"], case["spell"]):
+            for j in range(4):
+                tab.setdefault((j % 2, cell[j], j // 2), w[j])
+        c["spell"] = ["".join(tab.get((j % 2, cell[j], j // 2), tab.get((j % 2, cell[j], 1 - j // 2), "f")) for j in range(4)) + "f"
+                      for cell in cells]
     if case.get("alloc"):
         c["alloc"] = dict(case["alloc"], mods=[[["M", p]] for _ in cells])
+        c["alloc"].pop("spell", None)
+    if case.get("near"):
+        c["inexact"] = not areas_robust(c)
     return c
 
 
@@ -836,10 +1171,16 @@ def shrink(case):
 def shrink_all(case):
     if case.get("history"):
         yield dict(case, history=None)
+    if case.get("spell"):
+        c = dict(case)
+        del c["spell"]
+        yield c
+    if case.get("alloc") and case["alloc"].get("spell"):
+        yield dict(case, alloc={k: v for k, v in case["alloc"].items() if k != "spell"})
     g = grid_index(case) if case["kind"] == "grid" else None
     cc = cell_costs(case)
     low = sum(c for c in cc if c < 0) - 5
-    if case["bound"] != low and not (case.get("alloc") and case["alloc"]["decimal"]):
+    if case["bound"] != low and not (case.get("alloc") and case["alloc"]["decimal"]) and not case.get("inexact"):
         yield dict(case, bound=low)
     if g:
         xs, ys, pos = g
@@ -894,7 +1235,14 @@ def run(ctx, out, replay=None):
                 "negative, and 1e3..1e6 away from 0 on either side; for <= 9 cells every "
                 "model of the solver's formula projected on the cell variables is enumerated with PySAT and compared "
                 "with the independent enumeration of shapes meeting the bound; the variable table (registration "
-                "order) is compared as well; non-trivial = full grid with >= 3 cells and k >= 2; distinct by hash")
+                "order) is compared as well; every third case writes equal numbers in different ways in different cells "
+                "(int / float / numpy.float64 / numpy.int64 / -0.0 per cell and coordinate: by side of the line, one "
+                "deviating number, all ints but one, one line only, at random; in allocation texts 3 / 3.0 / 3.00 / "
+                "30.0e-1 / 0.03e2 / 3.0e+0, in parsed input files int / float / numpy / -0.0) and the model reads the "
+                "problem as written (read_problem); one case in 20 has two (or three) grid lines one unit in the last "
+                "place apart (dyadic; one in 40 decimal: 0.3 | 0.1 + 0.2), one in 40 plain decimal coordinates on the "
+                "direct path - compared with the model when the binary64 area products provably truncate like the exact "
+                "ones, else direct oracle only; non-trivial = full grid with >= 3 cells and k >= 2; distinct by hash")
     cases = []
     if replay and "case" in replay:
         cases.append(fr.unjson(replay["case"]))
@@ -905,13 +1253,31 @@ def run(ctx, out, replay=None):
         # dyadic numbers (compared with the model exactly) and decimal ones (direct oracle)
         # ... and every other one of those hands the parsed input file to select_box directly (any origin: negative,
         # ending at 0, straddling 0, far from 0)
+        # every third case writes equal numbers in different ways; one in 20 has two grid lines one unit in the last place
+        # apart (dyadic numbers: compared with the model), one in 40 the same with decimal numbers and one in 40 plain
+        # decimal coordinates on the direct path
+        big = j % 125 == 51
+        near = None if big else "dyadic" if j % 20 == 7 else "decimal" if j % 40 == 14 else "plain-decimal" if j % 40 == 34 else None
         cases.append(gen_case(ctx.rng, small=(j % 2 == 0), alloc=(None if j % 8 != 5 else (j % 16 != 5)),
-                              via=("ifile" if j % 8 == 5 and (j // 16) % 3 != 0 else "file"), big=(j % 125 == 51)))
-    stats = {"sat": 0, "unsat": 0, "keyerror": 0, "zerodiv": 0, "zero_quality_denominator": 0, "enumerated_instances": 0, "models_enumerated": 0,
+                              via=("ifile" if j % 8 == 5 and (j // 16) % 3 != 0 else "file"), big=big,
+                              spell=(j % 3 == 1), near=near))
+    # the few 32..36-cell cases cost up to a minute each in vm_compute and the shards (10 consecutive cases) are awaited in
+    # order: one per shard at the head of the list, so that they run side by side instead of stalling the queue four times
+    large = [c for c in cases if len(c["cells"]) >= 30]
+    cases = [c for c in cases if len(c["cells"]) < 30]
+    for i, c in enumerate(large):
+        cases.insert(min(10 * i + 9, len(cases)), c)
+    stats = {"spelled": 0, "lines_written_in_two_ways": 0, "near_lines": 0, "inexact_oracle_only": 0, "sat": 0, "unsat": 0, "keyerror": 0, "zerodiv": 0, "zero_quality_denominator": 0, "enumerated_instances": 0, "models_enumerated": 0,
              "max_clauses": 0, "with_diagram": 0}
 
     def run_counted(case):
         obs = run_impl(case)
+        if case.get("spell") or (case.get("alloc") or {}).get("spell"):
+            stats["spelled"] += 1
+            if case.get("spell") and mixed_lines(case):
+                stats["lines_written_in_two_ways"] += 1
+        stats["near_lines"] += bool(case.get("near") in ("dyadic", "decimal"))
+        stats["inexact_oracle_only"] += bool(case.get("inexact"))
         if obs["keyerror"]:
             stats["keyerror"] += 1
             return obs
